@@ -33,7 +33,7 @@ func constantString(c *types.Const) string {
 	return c.Val().ExactString()
 }
 
-var onlyRule string
+var onlyRule, knownPath string
 
 func main() {
 	prop := flag.String("prop", "", "property id (C01..C20) or 'all'")
@@ -41,9 +41,20 @@ func main() {
 	repo := flag.String("repo", "/repo", "repository to analyse")
 	verif := flag.String("verif", "/verif", "verification directory (evidence, known findings)")
 	only := flag.String("only", "", "only report this rule id (replay)")
+	known := flag.String("known", "", "known findings file (default <verif>/known_findings.json)")
 	list := flag.Bool("list", false, "list properties")
+	dump := flag.String("dump", "", "debug: dump an engine's view (extreg)")
 	flag.Parse()
+	if *dump != "" {
+		c := Load(LoadConfig{Repo: *repo, MinPkgs: 10})
+		dumpEngine(c, *dump)
+		return
+	}
 	onlyRule = *only
+	knownPath = *known
+	if knownPath == "" {
+		knownPath = *verif + "/known_findings.json"
+	}
 	if *list {
 		var ids []string
 		for id := range props {
